@@ -28,7 +28,8 @@ SPEC = dict(
           "balanced workload closed at the end; non-trivial = close() issued while >=1 caller was inside a blocking/timed call, "
           "or (balanced) the sampler saw the queue full. bq_wake: up to 40 rounds on fresh queues, 1..4 callers blocked on an "
           "empty or full queue (blocking or 60 s timed), the main thread feeds 0..4 of them and closes after generated "
-          "delays; non-trivial = close() with >=1 caller still inside its call. spsc: ring kind/capacity 1..64, 1..3000 "
+          "delays, or (transient placement, >= 2 callers) releases j < parked of them and closes at once, before the notified "
+          "callers have taken/put; non-trivial = close() with >=1 caller still inside its call. spsc: ring kind/capacity 1..64, 1..3000 "
           "items, producer and consumer scripts mixing single and batch (0..8) operations and pacing; non-trivial = the ring "
           "was full at least once and wrapped. Distinct by hash of the plan text."),
     assumptions=["callers stay inside the documented contracts: ring buffers are single-producer/single-consumer, "
